@@ -255,7 +255,7 @@ macro "backend_case" hp:ident hm:ident hf0:ident hf1:ident hf2:ident hr2:ident h
   `(tactic| (
     simp only [stepPath, condsOk, List.all_cons, List.all_nil, Cmp.holds, evalQ, envB, Bool.and_true, Nat.reduceLT,
       Nat.reduceSub, if_true, if_false, reduceIte, Nat.reduceEqDiff, Int.cast_zero, Nat.cast_one, div_one,
-      Bool.and_eq_true, beq_iff_eq, decide_eq_true_eq, decide_eq_false_iff_not, not_le] at $hp:ident
+      Bool.and_eq_true, beq_iff_eq, decide_eq_true_eq, decide_eq_false_iff_not, not_le, not_lt] at $hp:ident
     obtain ⟨h0, h1, h2, h3⟩ := $hp
     simp only [poincareStep, $hm:ident, stepLoop, $hf0:ident, $hf1:ident, $hf2:ident, $hr3:ident, $hsec:ident, detect,
       Sec.idx6, dirVal, (embed_getD _).1, (embed_getD _).2.1, (embed_getD _).2.2.1, (embed_getD _).2.2.2.1,
@@ -293,7 +293,7 @@ theorem backend_none_traced (sec : Sec) (seed x1 x2 x3 r0 r1 r2 r3 : Vec) (dt : 
   cases sec <;> (
     simp only [stepNonePath, condsOk, List.all_cons, List.all_nil, Cmp.holds, evalQ, envB, Bool.and_true, Nat.reduceLT,
       Nat.reduceSub, if_true, if_false, reduceIte, Nat.reduceEqDiff, Int.cast_zero, Nat.cast_one, div_one,
-      Bool.and_eq_true, beq_iff_eq, decide_eq_true_eq, decide_eq_false_iff_not, not_le] at hp
+      Bool.and_eq_true, beq_iff_eq, decide_eq_true_eq, decide_eq_false_iff_not, not_le, not_lt] at hp
     obtain ⟨h0, h1⟩ := hp
     simp only [poincareStep, hm, stepLoop, hf0, hf1, hsec, detect, Sec.idx6, (embed_getD _).1, (embed_getD _).2.1,
       (embed_getD _).2.2.1, (embed_getD _).2.2.2.1, ge_iff_le, h0, h1, if_true, stepNoneRows, and_self])
